@@ -13,6 +13,7 @@ import (
 	"github.com/hprose/hprose-golang/v3/rpc/plugins/push"
 
 	"verif/harness/gate"
+	"verif/harness/rpcenv"
 	"verif/harness/tr"
 )
 
@@ -24,8 +25,7 @@ import (
 
 func init() {
 	drivers["c19"] = runC19
-	mock.RegisterHandler()
-	mock.RegisterTransport()
+	rpcenv.Register()
 }
 
 type c19Proxy struct {
